@@ -19,17 +19,25 @@ var (
 )
 
 // Tick is called at the head of every loop body of the instrumented library.
+//
+// Unarmed (budget 0) it only reads one shared word, so drivers that run many goroutines pay no contention; ticks are
+// counted, and the budget enforced, only between Arm(b > 0) and Arm(0), which drivers do on one goroutine at a time.
 func Tick() {
-	t := atomic.AddInt64(&ticks, 1)
-	if b := atomic.LoadInt64(&budget); b > 0 && t > b {
+	b := atomic.LoadInt64(&budget)
+	if b == 0 {
+		return
+	}
+	if t := atomic.AddInt64(&ticks, 1); t > b {
 		atomic.StoreInt64(&budget, 0)
 		panic(BudgetExceeded{Ticks: t})
 	}
 }
 
-// Arm resets the counter and sets a budget (0 = unlimited).
+// Arm resets the counter and sets a budget (0 = disarmed: ticks are neither counted nor limited).
 func Arm(b int64) {
-	atomic.StoreInt64(&ticks, 0)
+	if b != 0 {
+		atomic.StoreInt64(&ticks, 0)
+	}
 	atomic.StoreInt64(&budget, b)
 }
 
